@@ -13,7 +13,7 @@ MAX_BYTES_PER_USER = 300            # keeps every interactive_t.text far away fr
 class C12(Prop):
     id = "C12"
     title = "Buffered commands are served fairly: one per user per cycle, nobody starves"
-    lean_modules = ["NV.C12.Props", "NV.C12.Witness"]
+    lean_modules = ["NV.C12.Props", "NV.C12.Witness", "NV.C12.Trace"]
     lean_modules_ = None
     theorems = [
         "NV.C12.flag_bits",
@@ -29,8 +29,19 @@ class C12(Prop):
         "NV.C12.command_efun_needs_no_turn",
         "NV.C12.scan_spec",
         "NV.C12.cmdLoop_spec",
+        "NV.C12.scan_finds_every_eligible",
+        "NV.C12.grant_gives_turn",
+        "NV.C12.turns_at_most_connected_users",
+        "NV.C12.loop_bound_sufficient",
+        "NV.C12.no_starvation",
+        "NV.C12.cmdLoop_complete",
+        "NV.C12.cmdLoop_serves",
+        "NV.C12.getchar_typeahead_repaired",
+        "NV.C12.judgeStruct_events",
+        "NV.C12.judgeEfun_events",
+        "NV.C12.judgeEv_events_eq_data",
     ]
-    witness_theorems = ["NV.C12.getchar_typeahead_witness", "NV.C12.C12_trace_Full_false"]
+    witness_theorems = []
     consts = [("hasCmdTurn", "HAS_CMD_TURN"), ("cmdInBuf", "CMD_IN_BUF"), ("singleChar", "SINGLE_CHAR"),
               ("maxText", "MAX_TEXT")]
     const_headers = ["src/comm.h"]
@@ -158,6 +169,11 @@ class C12(Prop):
         for _ in range(rng.range(0, 2)):
             u = rng.range(1, nmax)
             lines.append("script u%d =%s %s" % (u, rng.choice(SUBWORDS1), self.gen_script(rng, nmax, 1)))
+        if rng.chance(1, 4):
+            # get_char heavy: lines typed while a get_char() is pending, partial lines typed ahead of it
+            for u in range(1, min(nmax, 4) + 1):
+                for wd in (rng.choice(WORDS), rng.choice(WORDS)):
+                    lines.append("script u%d =%s %s" % (u, wd, rng.choice(["gc", "gc", "gc;it", "it", "gc;ecmd,u%d,n1" % u])))
         nconn = 0
         nacc = 0
         closed = set()
